@@ -150,6 +150,10 @@ func runC15(o Opts) error {
 			if _, err := netip.ParseAddr(txt); err != nil {
 				continue
 			}
+			_ = i
+			if i%4 == 3 { // with a zone: plain, and with dots in it that do not form a dotted quad
+				txt += "%" + []string{"eth0", "a.b.c.d", "eth0.1.2.", "...", "1.2.3", "en0.100", "x.y.z.w.v", "1.2.3.x"}[r.Intn(8)]
+			}
 			switch r.Intn(3) {
 			case 0:
 				c15parse(s, role, txt, "ipv6-well-formed")
